@@ -1,6 +1,6 @@
 """Common machinery for /verif checks: builds (repo CLI, vtool, Coq, OCaml drivers),
 evidence, violations, known findings."""
-import fcntl, glob, hashlib, json, os, re, shutil, subprocess, sys, time
+import ast, fcntl, glob, hashlib, json, os, re, shutil, subprocess, sys, time
 
 VERIF = os.path.dirname(os.path.dirname(os.path.abspath(__file__)))
 REPO = os.environ.get("VERIF_REPO", "/repo")
@@ -174,6 +174,31 @@ def run_driver(exe, lines, timeout=1200):
     if p.returncode != 0:
         raise RuntimeError(f"model driver failed: {p.stderr[-2000:]}")
     return p.stdout.split("\n")[:len(lines)]
+
+
+def coq_doc_lines(scratch_dir, texts):
+    """Evaluate rust_lines (normalize_line_breaks t) of coq/Model/DocLines.v inside Coq for every text (UTF-8 bytes).
+    Returns a list of lists of str, or None if coqc fails."""
+    def lit(t):
+        return "[" + "; ".join(str(b) for b in t.encode("utf-8")) + "]"
+    src = ("From OAS Require Import Lib.Str Model.DocLines.\nLocal Open Scope list_scope.\n"
+           "Definition enc (l : list N) : string := fold_right (fun n s => String (ascii_of_N n) s) EmptyString l.\n"
+           "Fixpoint dec (s : string) : list N := match s with EmptyString => [] | String c r => N_of_ascii c :: dec r end.\n"
+           "Definition run (l : list N) := map dec (rust_lines (normalize_line_breaks (enc l))).\n"
+           "Eval vm_compute in map run [" + ";\n ".join(lit(t) for t in texts) + "].\n")
+    f = os.path.join(scratch_dir, "doc_cases.v")
+    open(f, "w").write(src)
+    with Lock("coq"):
+        rc, out = run(["timeout", "300", "coqc", "-noglob", "-Q", COQ, "OAS", f], cwd=scratch_dir, timeout=360)
+    if rc != 0:
+        log("coqc doc_cases.v failed: " + out[-500:])
+        return None
+    m = re.search(r"=\s*(\[.*\])\s*:\s*list", out, flags=re.S)
+    if not m:
+        return None
+    body = re.sub(r"%N", "", m.group(1)).replace(";", ",")
+    val = ast.literal_eval(re.sub(r"\s+", " ", body))
+    return [[bytes(l).decode("utf-8", errors="replace") for l in ls] for ls in val]
 
 
 # ------------------------------------------------------------------ CLI helpers
